@@ -60,6 +60,11 @@ def generate(streams: Streams, tier: str, index: int) -> dict:
                                    scenes.q(rng.uniform(0.1, 9)), 64.0])}
         if cls == "DiffuseDroplet":
             s["interface_width"] = rng.choice([None, 0.0, 0.5, 1.0, 1.0, scenes.q(rng.uniform(0, 3))])
+        # how the droplet object came to be (all give the same droplet): constructor, from a
+        # volume, through the volume / radius setters, across a process boundary, as a member
+        # of an emulsion whose data was linked
+        s["via"] = rng.choice(["ctor", "ctor", "ctor", "from_volume", "set_volume", "set_radius",
+                               "pickled", "linked"])
         drops.append(s)
     if all(d["radius"] == 0 for d in drops):
         drops[0]["radius"] = 1.0
@@ -103,11 +108,36 @@ def _compiled_merge(cls):
     return _COMPILED[cls]
 
 
+def _make(s):
+    d = scenes.make_droplet(s)
+    via = s.get("via", "ctor")
+    if via == "from_volume":
+        d2 = type(d).from_volume(d.position, d.volume)
+        if "interface_width" in d.data.dtype.names:
+            d2.interface_width = d.interface_width
+        return d2
+    if via == "set_volume":
+        d.volume = d.volume
+    elif via == "set_radius":
+        d.radius = float(d.radius)
+    elif via == "pickled":
+        import pickle
+
+        d = pickle.loads(pickle.dumps(d))
+    elif via == "linked":
+        import droplets
+
+        em = droplets.Emulsion([d])
+        em.get_linked_data()
+        d = em[0]
+    return d
+
+
 def _run_schedule(drops, merges, dim, V, cnt, log, tag):
     """Apply one merge schedule; returns the final survivor (or None)."""
     from droplets.droplets import DiffuseDroplet, SphericalDroplet
 
-    survivors = [scenes.make_droplet(s) for s in drops]
+    survivors = [_make(s) for s in drops]
     V0 = math.fsum(vol(d.radius, dim) for d in survivors)
     C0 = [math.fsum(vol(d.radius, dim) * float(d.position[k]) for d in survivors) / V0
           for k in range(dim)]
@@ -136,6 +166,7 @@ def _run_schedule(drops, merges, dim, V, cnt, log, tag):
         sig = {"path": path, "dim": str(dim), "cls": type(a).__name__}
         a0, b0 = a.data.tobytes(), b.data.tobytes()
         ra, rb = a.radius, b.radius
+        va_acc, vb_acc = float(a.volume), float(b.volume)  # the public accessors
         Va, Vb = vol(ra, dim), vol(rb, dim)
         pa, pb = np.array(a.position, dtype=float), np.array(b.position, dtype=float)
         wa = a.data["interface_width"] if "interface_width" in a.data.dtype.names else None
@@ -221,6 +252,12 @@ def _run_schedule(drops, merges, dim, V, cnt, log, tag):
             V.append(Violation("C11.O0", f"{tag} merge {mi}: merging raised {err.text}",
                                {**sig, "kind": "raised", "exc_type": err.exc_type, "frame": err.frame}))
             return None
+        # O1 through the public accessor of the live result: its volume is the sum of the volumes
+        vm = float(merged.volume)
+        if not rel_close(vm, va_acc + vb_acc, 1e-12) or not rel_close(vm, vol(float(merged.radius), dim), 1e-12):
+            V.append(Violation("C11.O1", f"{tag} merge {mi} ({path}): volume of the merged droplet "
+                               f"{vm!r} is not the sum {va_acc!r} + {vb_acc!r} of the operands' volumes "
+                               f"(radius {float(merged.radius)!r})", {**sig, "kind": "volume_accessor"}))
         # O4: operands unmodified unless in-place
         if b.data.tobytes() != b0:
             V.append(Violation("C11.O4", f"{tag} merge {mi} ({path}): the second operand was "
@@ -294,6 +331,8 @@ def evidence_extra(records) -> dict:
 
 def shrink(case: dict):
     ds = case["droplets"]
+    if any(d.get("via", "ctor") != "ctor" for d in ds):
+        yield {**case, "droplets": [{**d, "via": "ctor"} for d in ds]}
     if len(ds) > 2:
         for i in range(len(ds)):
             yield {**case, "droplets": ds[:i] + ds[i + 1:]}
